@@ -12,7 +12,7 @@ Flags ==
      HooksOnlyOfDefiningClasses |-> HooksOnlyOfDefiningClasses,
      CitesSomething |-> CitesSomething, CitesInsideDocument |-> CitesInsideDocument]
 
-Devs == [alias |-> DevAliasRevisit, enumbool |-> DevEnumBoolUnion]
+Devs == [alias |-> DevAliasRevisit]
 
 Export ==
     Terminal => PrintT(<<"CASE", ToJson(
